@@ -1,5 +1,6 @@
 import Orx.KSRun
 import Orx.IW.Outs
+import Orx.IW.FullLoops
 /-! # C12 for_each / enumerate_for_each / fold visit every element exactly once -/
 namespace Orx.Props.C12
 open Orx Orx.KS
@@ -84,5 +85,33 @@ theorem all_visited_once (s : KSrc) (progs : Nat → List SOp) (hp : ∀ t, ∀ 
   rw [cursor_all_schedules s progs hp σ 0 hns hw]
   have : pos s.len (c.ctr 0) = s.len := by unfold pos; omega
   rw [this]
+
+/-- **for_each / enumerate_for_each / fold / values / ids_and_values over the owning wrapper, every schedule**: threads that
+run nothing but these loops (any mix of positive chunk sizes; closures and wrapped iterator do not panic) never make the
+machinery destroy an element, and once all loops have returned the closures have been invoked on exactly the elements the
+wrapped iterator produced, each exactly once — the full thread machine `IWF.step` (protocol, loop-owned buffers, chunk
+iterators), multiset equality. That the iterator was polled exactly up to its first `None` is `IW.exactly_once` /
+`Inv.callOk`; the right index in the enumerated form is `OInv.good` (C02). -/
+theorem iter_loops_visit_every_produced_element_once (s : IWF.ISrc) (hown : s.owning = true) (hnp : ∀ i, s.fn i ≠ .panic)
+    (n : Nat) (progs : Nat → List SOp) (hloop : ∀ t, t < n → ∀ o ∈ progs t, IWF.isLoopOp o.op = true)
+    (σ : List Nat) (hσ : ∀ t ∈ σ, t < n) (hb : IWF.Below s σ (IWF.init progs))
+    (hfin : ∀ t, t < n → IWF.finished ((IWF.run s σ (IWF.init progs)).d t) = true) (p : Nat) :
+    (IWF.run s σ (IWF.init progs)).dr = [] ∧
+    (IWF.prod s (IWF.run s σ (IWF.init progs)).core.P).count p = (IWF.run s σ (IWF.init progs)).mv.count p :=
+  IWF.loops_visit_every_produced_element_once s hown hnp n progs hloop σ hσ hb hfin p
+
+def lpS : IWF.ISrc := { script := [.some 7, .some 3, .some 9, .some 4, .some 8, .none] }
+def lpProgs : Nat → List SOp := fun t =>
+  if t = 0 then [⟨0, .foreach 2 none⟩] else if t = 1 then [⟨0, .fold 3⟩, ⟨0, .values⟩] else []
+def lpSched : List Nat := (List.range 120).map (· % 2) ++ List.replicate 60 0 ++ List.replicate 60 1
+
+/-- non-vacuity: two threads with different chunk sizes, interleaved step by step, visit the five elements once -/
+example : IWF.Below lpS lpSched (IWF.init lpProgs) ∧
+    (∀ t, t < 2 → IWF.finished ((IWF.run lpS lpSched (IWF.init lpProgs)).d t) = true) ∧
+    (IWF.run lpS lpSched (IWF.init lpProgs)).mv.length = 5 := by
+  refine ⟨by decide +kernel, ?_, by decide +kernel⟩
+  intro t ht
+  have : t = 0 ∨ t = 1 := by omega
+  rcases this with rfl | rfl <;> decide +kernel
 
 end Orx.Props.C12
